@@ -1,1 +1,422 @@
-(* C07 stub: to be written *)
+(* C07 — lemmas on the shape algebra of Model/Vector.v, for every rank (induction on lists). *)
+From Coq Require Import List ZArith Lia Bool Arith Setoid.
+From EPG Require Import Scalar QI State Ops ListLemmas NdArray NdArrayProofs Vector.
+Import ListNotations.
+
+(* ------------------------------------------------------------------ lists *)
+Lemma map2_length {A B C} (f : A -> B -> C) x y : length (map2 f x y) = Nat.min (length x) (length y).
+Proof. revert y. induction x; intros [|b y]; simpl; auto. Qed.
+
+Lemma map2_app {A B C} (f : A -> B -> C) x1 x2 y1 y2 :
+  length x1 = length y1 -> map2 f (x1 ++ x2) (y1 ++ y2) = map2 f x1 y1 ++ map2 f x2 y2.
+Proof.
+  revert y1. induction x1; intros [|b y1] H; simpl in *; try discriminate; auto.
+  f_equal. apply IHx1. lia.
+Qed.
+
+Lemma map2_nil_r {A B C} (f : A -> B -> C) x : map2 f x [] = [].
+Proof. destruct x; reflexivity. Qed.
+
+Lemma firstn_map2 {A B C} (f : A -> B -> C) n x y :
+  firstn n (map2 f x y) = map2 f (firstn n x) (firstn n y).
+Proof.
+  revert x y. induction n; intros x y; simpl; auto.
+  destruct x as [|a x], y as [|b y]; simpl; auto. f_equal. apply IHn.
+Qed.
+
+Lemma nth_map2 {A B C} (f : A -> B -> C) x y i da db dc :
+  i < length x -> i < length y -> nth i (map2 f x y) dc = f (nth i x da) (nth i y db).
+Proof.
+  revert y i. induction x; intros [|b y] i Hx Hy; simpl in *; try lia.
+  destruct i; auto. apply IHx; lia.
+Qed.
+
+Lemma sequence_some {A} (l : list (option A)) r :
+  sequence l = Some r -> length r = length l /\ forall i, i < length l -> forall d, nth i l None = Some (nth i r d).
+Proof.
+  revert r. induction l as [|[a|] l IH]; intros r H; simpl in *; try discriminate.
+  - inversion H; subst. split; auto. intros; lia.
+  - destruct (sequence l) eqn:E; try discriminate. inversion H; subst.
+    destruct (IH l0 eq_refl) as [IH1 IH2]. split; simpl; [lia|].
+    intros [|i] Hi d; auto. apply IH2. lia.
+Qed.
+
+Lemma sequence_none {A} (l : list (option A)) :
+  sequence l = None <-> In None l.
+Proof.
+  induction l as [|[a|] l IH]; simpl.
+  - split; [discriminate|tauto].
+  - destruct (sequence l); split; intros H; try discriminate.
+    + destruct H as [H|H]; [discriminate|]. apply IH in H. discriminate.
+    + right. now apply IH.
+    + reflexivity.
+  - split; auto.
+Qed.
+
+Lemma sequence_all_some {A} (l : list (option A)) :
+  (forall x, In x l -> x <> None) -> exists r, sequence l = Some r.
+Proof.
+  intros H. destruct (sequence l) eqn:E; eauto.
+  apply sequence_none in E. exfalso. now apply (H None).
+Qed.
+
+Lemma shape_eqb_eq a b : shape_eqb a b = true <-> a = b.
+Proof.
+  unfold shape_eqb. revert b. induction a; intros [|y b]; simpl; split; intros H; try discriminate; auto.
+  - apply andb_true_iff in H as [H1 H2]. apply Nat.eqb_eq in H1. apply IHa in H2. now subst.
+  - inversion H; subst. rewrite Nat.eqb_refl. simpl. now apply IHa.
+Qed.
+
+(* ------------------------------------------------------------------ expand_shapes *)
+Lemma length_le_maxlen ss s : In s ss -> length s <= maxlen ss.
+Proof. induction ss; simpl; intros H; [destruct H|]. destruct H as [H|H]; subst; [lia|]. specialize (IHss H). lia. Qed.
+
+Lemma pad_app_length n s : length s <= n -> length (pad_app n s) = n.
+Proof. intros H. unfold pad_app. rewrite app_length, repeat_length. lia. Qed.
+Lemma pad_pre_length n s : length s <= n -> length (pad_pre n s) = n.
+Proof. intros H. unfold pad_pre. rewrite app_length, repeat_length. lia. Qed.
+
+(* every expanded shape has the common rank, and the same number of shapes comes back *)
+Theorem expand_shapes_length ap ss :
+  length (expand_shapes ap ss) = length ss /\
+  forall e, In e (expand_shapes ap ss) -> length e = maxlen ss.
+Proof.
+  unfold expand_shapes. split; [apply map_length|].
+  intros e H. apply in_map_iff in H as [s [<- Hs]]. apply length_le_maxlen in Hs.
+  destruct ap; [now apply pad_app_length | now apply pad_pre_length].
+Qed.
+
+(* the expansion keeps the entries: left-aligned (append) / right-aligned (prepend), 1 elsewhere *)
+Lemma nth_pad_app n s i : nth i (pad_app n s) 1 = nth i s 1.
+Proof.
+  unfold pad_app. destruct (Nat.lt_ge_cases i (length s)).
+  - now rewrite app_nth1.
+  - rewrite app_nth2 by lia. rewrite (nth_overflow s) by lia.
+    destruct (Nat.lt_ge_cases (i - length s) (n - length s)).
+    + now apply nth_repeat'.
+    + apply nth_overflow. rewrite repeat_length. lia.
+Qed.
+
+Lemma nth_pad_pre n s i : length s <= n -> i < n ->
+  nth i (pad_pre n s) 1 = if i <? n - length s then 1 else nth (i - (n - length s)) s 1.
+Proof.
+  intros Hn Hi. unfold pad_pre. destruct (Nat.ltb_spec i (n - length s)).
+  - rewrite app_nth1 by (rewrite repeat_length; lia). now apply nth_repeat'.
+  - rewrite app_nth2 by (rewrite repeat_length; lia). now rewrite repeat_length.
+Qed.
+
+(* ------------------------------------------------------------------ columns *)
+Lemma all_same_spec l : all_same l = true <-> forall a b, In a l -> In b l -> a = b.
+Proof.
+  destruct l as [|d r]; simpl.
+  - split; auto. intros _ a b [].
+  - rewrite forallb_forall. split.
+    + intros H a b [Ha|Ha] [Hb|Hb]; subst; auto.
+      * apply H in Hb. now apply Nat.eqb_eq in Hb.
+      * apply H in Ha. apply Nat.eqb_eq in Ha. auto.
+      * apply H in Ha. apply H in Hb. apply Nat.eqb_eq in Ha, Hb. congruence.
+    + intros H x Hx. apply Nat.eqb_eq. apply H; auto.
+Qed.
+
+(* a column is accepted by [broadcastable] iff no two entries other than 1 differ *)
+Lemma col_ok_spec dims :
+  all_same (non1 dims) = true <->
+  forall a b, In a dims -> In b dims -> a <> 1 -> b <> 1 -> a = b.
+Proof.
+  rewrite all_same_spec. unfold non1. split.
+  - intros H a b Ha Hb Na Nb. apply H; apply filter_In; split; auto; apply negb_true_iff; now apply Nat.eqb_neq.
+  - intros H a b Ha Hb. apply filter_In in Ha as [Ha Na], Hb as [Hb Nb].
+    apply negb_true_iff in Na, Nb. apply Nat.eqb_neq in Na, Nb. auto.
+Qed.
+
+Lemma bs_col_some dims d :
+  bs_col dims = Some d ->
+  (forall x, In x dims -> x <= 1 \/ x = d) /\
+  ((d = 1 /\ forall x, In x dims -> x <= 1) \/ (1 < d /\ In d dims)).
+Proof.
+  unfold bs_col. destruct (gt1 dims) as [|e r] eqn:E.
+  - intros H; inversion H; subst. assert (A : forall x, In x dims -> x <= 1).
+    { intros x Hx. destruct (Nat.ltb_spec 1 x); auto.
+      assert (In x (gt1 dims)) by (apply filter_In; split; auto; now apply Nat.ltb_lt).
+      rewrite E in H1. destruct H1. }
+    split; auto.
+  - destruct (forallb (Nat.eqb e) r) eqn:F; intros H; inversion H; subst.
+    assert (Hd : In d (gt1 dims)) by (rewrite E; now left).
+    apply filter_In in Hd as [Hd1 Hd2]. apply Nat.ltb_lt in Hd2.
+    split; [|right; auto].
+    intros x Hx. destruct (Nat.ltb_spec 1 x); [right|left; lia].
+    assert (Hg : In x (gt1 dims)) by (apply filter_In; split; auto; now apply Nat.ltb_lt).
+    rewrite E in Hg. destruct Hg as [Hg|Hg]; auto.
+    rewrite forallb_forall in F. apply F in Hg. apply Nat.eqb_eq in Hg. auto.
+Qed.
+
+Lemma bs_col_none dims :
+  bs_col dims = None <-> exists a b, In a dims /\ In b dims /\ 1 < a /\ 1 < b /\ a <> b.
+Proof.
+  unfold bs_col. destruct (gt1 dims) as [|e r] eqn:E.
+  - split; [discriminate|]. intros (a & b & Ha & _ & La & _).
+    assert (In a (gt1 dims)) by (apply filter_In; split; auto; now apply Nat.ltb_lt).
+    rewrite E in H. destruct H.
+  - assert (He : In e dims /\ 1 < e).
+    { assert (In e (gt1 dims)) by (rewrite E; now left). apply filter_In in H as [? H]. apply Nat.ltb_lt in H. auto. }
+    destruct (forallb (Nat.eqb e) r) eqn:F.
+    + split; [discriminate|]. intros (a & b & Ha & Hb & La & Lb & N). exfalso.
+      rewrite forallb_forall in F.
+      assert (Ga : In a (e :: r)) by (rewrite <- E; apply filter_In; split; auto; now apply Nat.ltb_lt).
+      assert (Gb : In b (e :: r)) by (rewrite <- E; apply filter_In; split; auto; now apply Nat.ltb_lt).
+      assert (a = e) by (destruct Ga as [|Ga]; auto; apply F in Ga; apply Nat.eqb_eq in Ga; auto).
+      assert (b = e) by (destruct Gb as [|Gb]; auto; apply F in Gb; apply Nat.eqb_eq in Gb; auto).
+      congruence.
+    + split; auto. intros _.
+      assert (exists x, In x r /\ Nat.eqb e x = false) as (x & Hx & Nx).
+      { clear -F. induction r; simpl in *; [discriminate|].
+        destruct (Nat.eqb e a) eqn:Q; simpl in F.
+        - destruct (IHr F) as (x & ? & ?). exists x; auto.
+        - exists a; auto. }
+      apply Nat.eqb_neq in Nx.
+      assert (In x (gt1 dims)) by (rewrite E; now right). apply filter_In in H as [H1 H2]. apply Nat.ltb_lt in H2.
+      exists e, x. tauto.
+Qed.
+
+(* ------------------------------------------------------------------ broadcast_shapes *)
+(* Result axis i is the unique size > 1 found on axis i of the expanded shapes (1 when there is
+   none); ValueError (None) iff two sizes > 1 differ on some axis. *)
+Theorem broadcast_shapes_spec ap ss :
+  (forall r, broadcast_shapes ap ss = Some r ->
+     length r = maxlen ss /\
+     forall i, i < maxlen ss ->
+       (forall e, In e (expand_shapes ap ss) -> nth i e 1 <= 1 \/ nth i e 1 = nth i r 1) /\
+       ((nth i r 1 = 1 /\ forall e, In e (expand_shapes ap ss) -> nth i e 1 <= 1) \/
+        (1 < nth i r 1 /\ exists e, In e (expand_shapes ap ss) /\ nth i e 1 = nth i r 1))) /\
+  (broadcast_shapes ap ss = None <->
+     exists i e1 e2, i < maxlen ss /\ In e1 (expand_shapes ap ss) /\ In e2 (expand_shapes ap ss) /\
+       1 < nth i e1 1 /\ 1 < nth i e2 1 /\ nth i e1 1 <> nth i e2 1).
+Proof.
+  unfold broadcast_shapes. cbv zeta. set (es := expand_shapes ap ss). set (n := maxlen ss). split.
+  - intros r H. apply sequence_some in H as [H1 H2]. rewrite map_length, seq_length in H1, H2.
+    split; auto. intros i Hi. specialize (H2 i Hi 1).
+    rewrite (nth_indep _ None (bs_col (col 0 es))) in H2 by (rewrite map_length, seq_length; lia).
+    rewrite (map_nth (fun i => bs_col (col i es))) in H2. rewrite seq_nth in H2 by lia. simpl in H2.
+    apply bs_col_some in H2 as [A B]. split.
+    + intros e He. apply A. unfold col. apply in_map_iff. eauto.
+    + destruct B as [[B1 B2]|[B1 B2]]; [left|right]; split; auto.
+      * intros e He. apply B2. unfold col. apply in_map_iff. eauto.
+      * unfold col in B2. apply in_map_iff in B2 as (e & E1 & E2). eauto.
+  - split.
+    + intros H. apply sequence_none in H. apply in_map_iff in H as (i & Hc & Hi). apply in_seq in Hi. apply bs_col_none in Hc as (a & b & Ha & Hb & La & Lb & N).
+      unfold col in Ha, Hb. apply in_map_iff in Ha as (e1 & <- & He1), Hb as (e2 & <- & He2).
+      exists i, e1, e2. repeat split; auto; lia.
+    + intros (i & e1 & e2 & Hi & H1 & H2 & L1 & L2 & N). apply sequence_none. apply in_map_iff.
+      exists i. split; [|apply in_seq; lia].
+      apply bs_col_none. exists (nth i e1 1), (nth i e2 1).
+      repeat split; auto; unfold col; apply in_map_iff; eauto.
+Qed.
+
+(* all sizes >= 1 *)
+Definition pos (s : shape) : Prop := List.Forall (fun d => 1 <= d) s.
+Definition allpos (ss : list shape) : Prop := List.Forall pos ss.
+
+Lemma pos_nth s i : pos s -> 1 <= nth i s 1.
+Proof.
+  intros H. destruct (Nat.lt_ge_cases i (length s)).
+  - unfold pos in H. rewrite List.Forall_forall in H. apply H. now apply nth_In.
+  - rewrite nth_overflow; auto.
+Qed.
+
+Lemma pos_expand ap ss e : allpos ss -> In e (expand_shapes ap ss) -> pos e.
+Proof.
+  intros H He. unfold expand_shapes in He. apply in_map_iff in He as (s & <- & Hs).
+  unfold allpos in H. rewrite List.Forall_forall in H. specialize (H s Hs).
+  assert (R : forall k, pos (repeat 1 k)) by (induction k; constructor; auto).
+  destruct ap; unfold pad_app, pad_pre, pos; apply List.Forall_app; split; auto; apply R.
+Qed.
+
+(* broadcastable <-> broadcast_shapes does not raise, for shapes without 0-sized axes *)
+Theorem broadcastable_iff ap ss :
+  allpos ss -> (broadcastable ap ss = true <-> broadcast_shapes ap ss <> None).
+Proof.
+  intros P. unfold broadcastable. cbv zeta. rewrite forallb_forall. split.
+  - intros H N. apply (proj2 (broadcast_shapes_spec ap ss)) in N.
+    destruct N as (i & e1 & e2 & Hi & H1 & H2 & L1 & L2 & N).
+    assert (Hs : In i (seq 0 (maxlen ss))) by (apply in_seq; lia).
+    apply H in Hs. rewrite col_ok_spec in Hs. apply N.
+    apply Hs; unfold col; try (apply in_map_iff; eauto); lia.
+  - intros H i Hi. apply in_seq in Hi. apply col_ok_spec. intros a b Ha Hb Na Nb.
+    unfold col in Ha, Hb. apply in_map_iff in Ha as (e1 & <- & He1), Hb as (e2 & <- & He2).
+    destruct (Nat.eq_dec (nth i e1 1) (nth i e2 1)) as [|D]; auto. exfalso. apply H.
+    apply (proj2 (broadcast_shapes_spec ap ss)). exists i, e1, e2.
+    pose proof (pos_nth e1 i (pos_expand ap ss e1 P He1)).
+    pose proof (pos_nth e2 i (pos_expand ap ss e2 P He2)).
+    repeat split; auto; lia.
+Qed.
+
+(* with a 0-sized axis the two functions disagree: broadcastable says no, broadcast_shapes
+   returns (2,) without raising *)
+Lemma broadcastable_iff_zero_refuted :
+  exists ss, broadcastable true ss = false /\ broadcast_shapes true ss <> None.
+Proof. exists [[0]; [2]]. vm_compute. split; [reflexivity|discriminate]. Qed.
+
+(* ------------------------------------------------------------------ projections *)
+(* [dom A R]: every axis of A is a singleton or has the size of the same axis of R, |A| <= |R| *)
+Fixpoint dom (A R : shape) : Prop :=
+  match A, R with
+  | [], _ => True
+  | a :: A', r :: R' => (a = 1 \/ a = r) /\ dom A' R'
+  | _ :: _, [] => False
+  end.
+(* idx is an index of an array of shape R *)
+Definition valid (R : shape) (idx : list nat) : Prop := List.Forall2 (fun i d => i < d) idx R.
+
+Lemma dom_length A R : dom A R -> length A <= length R.
+Proof. revert R. induction A; intros [|r R] H; simpl in *; try lia; try tauto. destruct H. specialize (IHA R H0). lia. Qed.
+
+Lemma dom_app_l A X R : dom (A ++ X) R -> dom A R.
+Proof. revert R. induction A; intros [|r R] H; simpl in *; auto. destruct H. split; auto. Qed.
+
+Lemma dom_app_r A R X : dom A R -> dom A (R ++ X).
+Proof. revert R. induction A; intros [|r R] H; simpl in *; auto; try tauto. destruct H. split; auto. Qed.
+
+Lemma dom_refl R : dom R R.
+Proof. induction R; simpl; auto. Qed.
+
+Lemma map2_firstn_r {A B C} (f : A -> B -> C) x y : map2 f x (firstn (length x) y) = map2 f x y.
+Proof. revert y. induction x; intros [|b y]; simpl; auto. now rewrite IHx. Qed.
+
+Lemma aproj_long s idx : length s <= length idx -> aproj s idx = map2 sel s idx.
+Proof.
+  intros H. unfold aproj. replace (length s - length idx) with 0 by lia. simpl. now rewrite app_nil_r.
+Qed.
+
+Lemma aproj_length s idx : length s <= length idx -> length (aproj s idx) = length s.
+Proof. intros H. rewrite aproj_long by auto. rewrite map2_length. lia. Qed.
+
+Lemma np_proj_full s idx : length idx = length s -> np_proj s idx = map2 sel s idx.
+Proof.
+  intros H. unfold np_proj, align_r. rewrite H, Nat.sub_diag. reflexivity.
+Qed.
+
+Lemma map2_sel_dom A R idx : dom A R -> map2 sel A (map2 sel R idx) = map2 sel A idx.
+Proof.
+  revert R idx. induction A as [|a A IH]; intros [|r R] [|i idx] H; simpl in *; auto; try tauto.
+  destruct H as [H1 H2]. f_equal; auto.
+  unfold sel. destruct H1 as [->| ->]; simpl; auto. destruct (r =? 1); auto.
+Qed.
+
+(* re-projecting through a dominating shape does not change the projection *)
+Lemma aproj_dom A R idx : dom A R -> length R <= length idx -> aproj A (aproj R idx) = aproj A idx.
+Proof.
+  intros D L. pose proof (dom_length _ _ D).
+  rewrite (aproj_long R idx) by auto.
+  rewrite aproj_long by (rewrite map2_length; lia).
+  rewrite aproj_long by lia. now apply map2_sel_dom.
+Qed.
+
+Lemma valid_length R idx : valid R idx -> length idx = length R.
+Proof. intros V. induction V; simpl; auto. Qed.
+
+Lemma aproj_valid R idx : valid R idx -> aproj R idx = idx.
+Proof.
+  intros V. rewrite aproj_long by (apply valid_length in V; lia).
+  induction V; simpl; auto. f_equal; auto. unfold sel. destruct (Nat.eqb_spec y 1); auto. lia.
+Qed.
+
+Lemma firstn_aproj_app B X idx : length (B ++ X) <= length idx ->
+  firstn (length B) (aproj (B ++ X) idx) = aproj B idx.
+Proof.
+  intros L. rewrite app_length in L. rewrite aproj_long by (rewrite app_length; lia).
+  rewrite firstn_map2. rewrite firstn_app, Nat.sub_diag, firstn_all. simpl. rewrite app_nil_r.
+  rewrite map2_firstn_r. rewrite aproj_long by lia. reflexivity.
+Qed.
+
+(* ------------------------------------------------------------------ the axis insertion *)
+Lemma repeat_snoc {A} (a : A) n : repeat a (S n) = repeat a n ++ [a].
+Proof. induction n; simpl; auto. f_equal. exact IHn. Qed.
+
+Lemma ins_le A B : length A <= length B -> ins A B = pad_app (length B) A ++ [1].
+Proof.
+  intros H. unfold ins, pad_app.
+  replace (Nat.max 1 (S (length B) - length A)) with (S (length B - length A)) by lia.
+  rewrite repeat_snoc. now rewrite app_assoc.
+Qed.
+
+Lemma ins_length A B : length A <= length B -> length (ins A B) = S (length B).
+Proof. intros H. rewrite ins_le by auto. rewrite app_length, pad_app_length by auto. simpl. lia. Qed.
+
+Lemma pad_pre_id n s : length s = n -> pad_pre n s = s.
+Proof. intros <-. unfold pad_pre. now rewrite Nat.sub_diag. Qed.
+
+Lemma sequence_app {A} (l1 l2 : list (option A)) :
+  sequence (l1 ++ l2) = match sequence l1, sequence l2 with Some a, Some b => Some (a ++ b) | _, _ => None end.
+Proof.
+  induction l1 as [|[a|] l1 IH]; simpl.
+  - destruct (sequence l2); auto.
+  - rewrite IH. destruct (sequence l1), (sequence l2); auto.
+  - reflexivity.
+Qed.
+
+Lemma np_bdim_1_l b : np_bdim 1 b = Some b.
+Proof. unfold np_bdim, bc_dim. simpl. now rewrite orb_true_r. Qed.
+Lemma np_bdim_1_r a : np_bdim a 1 = Some a.
+Proof.
+  unfold np_bdim, bc_dim. destruct (Nat.eqb_spec a 1); subst; simpl; auto.
+  now rewrite orb_true_r.
+Qed.
+Lemma np_bdim_some a b r : np_bdim a b = Some r -> (a = 1 \/ a = r) /\ (b = 1 \/ b = r).
+Proof.
+  unfold np_bdim, bc_dim. destruct (Nat.eqb_spec a b), (Nat.eqb_spec a 1), (Nat.eqb_spec b a), (Nat.eqb_spec b 1);
+    simpl; intros H; inversion H; subst; auto.
+Qed.
+
+(* append-aligned broadcast of the batch shapes (|A| <= |B|): axis i of A against axis i of B *)
+Definition ashape (A B : shape) : option shape := sequence (map2 np_bdim (pad_app (length B) A) B).
+
+(* numpy's right-aligned broadcast of the axis-inserted operator array against the states
+   IS the append-aligned broadcast of the batch shapes, followed by the phase-state axis *)
+Lemma prod_shape_le A B ns : length A <= length B ->
+  prod_shape A B ns = match ashape A B with Some R => Some (R ++ [ns]) | None => None end.
+Proof.
+  intros H. unfold prod_shape, np_bshape.
+  assert (E1 : length (ins A B) = S (length B)) by (now apply ins_length).
+  assert (E2 : length (B ++ [ns]) = S (length B)) by (rewrite app_length; simpl; lia).
+  rewrite E1, E2, Nat.max_id. rewrite !pad_pre_id by auto.
+  rewrite ins_le by auto. rewrite map2_app by (now apply pad_app_length).
+  rewrite sequence_app. unfold ashape. simpl. rewrite np_bdim_1_l. reflexivity.
+Qed.
+
+Lemma seq_map2_dom X B R : length X = length B -> sequence (map2 np_bdim X B) = Some R ->
+  dom X R /\ dom B R /\ length R = length B.
+Proof.
+  revert B R. induction X as [|x X IH]; intros [|b B] R L H; simpl in *; try discriminate.
+  - inversion H; subst. simpl. auto.
+  - destruct (np_bdim x b) eqn:E; try discriminate.
+    destruct (sequence (map2 np_bdim X B)) eqn:Q; try discriminate. inversion H; subst.
+    apply np_bdim_some in E as [E1 E2]. destruct (IH B l ltac:(lia) Q) as (D1 & D2 & D3).
+    simpl. repeat split; auto.
+Qed.
+
+Lemma ashape_dom A B R : length A <= length B -> ashape A B = Some R ->
+  dom A R /\ dom B R /\ length R = length B.
+Proof.
+  intros L H. unfold ashape in H. apply seq_map2_dom in H; [|now apply pad_app_length].
+  destruct H as (D1 & D2 & D3). repeat split; auto. unfold pad_app in D1. now apply dom_app_l in D1.
+Qed.
+
+(* scalar_prod / fall-back matrix_prod: operator element read at result index bidx ++ [k] *)
+Lemma prod_op_aligned A B bidx k : length A <= length B -> length bidx = length B ->
+  prod_op A B (bidx ++ [k]) = aproj A bidx.
+Proof.
+  intros L Lb. unfold prod_op.
+  rewrite np_proj_full by (rewrite ins_length, app_length by auto; simpl; lia).
+  rewrite firstn_map2. unfold ins. rewrite firstn_app, Nat.sub_diag, firstn_all. simpl. rewrite app_nil_r.
+  rewrite map2_firstn_r. rewrite aproj_long by lia.
+  assert (G : forall A bidx, length A <= length bidx -> map2 sel A (bidx ++ [k]) = map2 sel A bidx).
+  { induction A0 as [|a A0 IH]; intros [|i b] H; simpl in *; auto; try lia. f_equal. apply IH. lia. }
+  apply G. lia.
+Qed.
+
+Lemma prod_st_aligned B ns bidx k : length bidx = length B ->
+  prod_st B ns (bidx ++ [k]) = aproj B bidx ++ [sel ns k].
+Proof.
+  intros Lb. unfold prod_st. rewrite np_proj_full by (rewrite !app_length; simpl; lia).
+  rewrite map2_app by auto. rewrite aproj_long by lia. reflexivity.
+Qed.
